@@ -18,6 +18,8 @@
 #include "random/ascon-trng.h"
 #include <errno.h>
 #include <sys/types.h>
+#include <sys/wait.h>
+#include <unistd.h>
 
 /* ---------------------------------------------------------------- scripted system source */
 static uint64_t gr_seed;
@@ -350,32 +352,59 @@ static void case_history(uint64_t idx)
 }
 
 /* one-shot ascon_random, bad parameters of save/load, fetch with a NULL state */
+/* ascon_random() has no state object: whatever it keeps between calls (nothing in the pinned tree; a pool would be allowed -
+ * "a deterministic function of the bytes obtained from the system source") lives in the process.  So each variant runs in a
+ * forked child: all children start from the same inherited process state and differ only in the tape / fault script. */
+typedef struct { int status; long calls; uint8_t out[20000 + 8]; } rnd_res_t;
+static int random_in_child(size_t n, uint64_t tape, unsigned fail_mask, unsigned eintr_mask, long pcall, size_t pbyte, rnd_res_t *res)
+{
+    int fd[2];
+    pid_t pid;
+    size_t got = 0, want = sizeof(int) + sizeof(long) + n + 8;
+    uint8_t *raw = (uint8_t *)res;
+    if (pipe(fd)) return -1;
+    fflush(stdout);
+    pid = fork();
+    if (pid < 0) return -1;
+    if (pid == 0) {
+        static rnd_res_t r;
+        close(fd[0]);
+        gr_seed = tape; gr_logical = 0; gr_fail_mask = fail_mask; gr_eintr_mask = eintr_mask; gr_pending_intr = 0; pert_call = pcall; pert_byte = pbyte;
+        memset(r.out, GPAT, n + 8);
+        r.status = ascon_random(r.out, n);
+        r.calls = gr_logical;
+        { const uint8_t *p = (const uint8_t *)&r; size_t left = want; while (left) { ssize_t w = write(fd[1], p, left); if (w <= 0) _exit(3); p += w; left -= (size_t)w; } }
+        _exit(0);
+    }
+    close(fd[1]);
+    while (got < want) { ssize_t k = read(fd[0], raw + got, want - got); if (k <= 0) break; got += (size_t)k; }
+    close(fd[0]);
+    { int st; waitpid(pid, &st, 0); if (!WIFEXITED(st) || WEXITSTATUS(st)) return -1; }
+    return got == want ? 0 : -1;
+}
+
 static void case_misc(uint64_t idx)
 {
     size_t n = SIZES[rng_below(R, 9)];
-    uint8_t *o1 = (uint8_t *)galloc(n, 1), *o2 = (uint8_t *)galloc(n, 1);
-    int s1, s2;
+    static rnd_res_t a, b, c, f;
     uint64_t tape = rng_u64(R);
+    unsigned eintr = rng_below(R, 2);
+    size_t pb = rng_below(R, 32);
     vf_progress("case=%llu prng misc n=%zu", (unsigned long long)idx, n);
     snprintf(hist_desc, sizeof(hist_desc), "ascon_random(%zu)", n);
-    gr_seed = tape; gr_logical = 0; gr_fail_mask = 0; gr_eintr_mask = rng_below(R, 2); gr_pending_intr = 0; pert_call = -1;
-    s1 = ascon_random(o1, n);
-    if (!s1 || gr_logical < 1) vf_violation("C15", "prng:status:ascon_random", "\"status\":%d,\"calls\":%ld", s1, gr_logical);
-    gr_logical = 0; gr_eintr_mask = 0;
-    s2 = ascon_random(o2, n);
-    if (n && memcmp(o1, o2, n)) vf_violation("C15", "prng:determinism:ascon_random", "\"n\":%zu", n);
-    vf_out(o1, n);
-    if (n >= 8) {
-        gr_logical = 0; pert_call = 0; pert_byte = rng_below(R, 32);
-        ascon_random(o2, n); pert_call = -1;
-        if (!memcmp(o1, o2, n)) vf_violation("C15", "prng:influence:ascon_random", "\"n\":%zu,\"byte\":%zu", n, pert_byte);
+    if (random_in_child(n, tape, 0, eintr, -1, 0, &a) || random_in_child(n, tape, 0, 0, -1, 0, &b) || random_in_child(n, tape, 0, 0, 0, pb, &c) || random_in_child(n, tape, 1, 0, -1, 0, &f)) {
+        vf_violation("C15", "prng:ascon_random:child-died", "\"n\":%zu", n);
+    } else {
+        if (!a.status || a.calls < 1) vf_violation("C15", "prng:status:ascon_random", "\"status\":%d,\"calls\":%ld", a.status, a.calls);
+        if (n && memcmp(a.out, b.out, n)) vf_violation("C15", "prng:determinism:ascon_random", "\"n\":%zu", n);
+        for (int z = 0; z < 8; ++z) if (a.out[n + z] != GPAT) { vf_violation("C12", "stray-write:ascon_random", "\"n\":%zu", n); break; }
+        vf_out(a.out, n);
+        if (n >= 8 && !memcmp(a.out, c.out, n)) vf_violation("C15", "prng:influence:ascon_random", "\"n\":%zu,\"byte\":%zu", n, pb);
+        if (f.status != 0) vf_violation("C15", "prng:status:ascon_random-failed-source", "\"status\":%d", f.status);
+        if (n >= 8) { size_t k = 0; while (k < n && f.out[k] == GPAT) ++k; if (k == n) vf_count("ascon_random_no_output_on_failed_source", 1); }
+        vf_count("ascon_random_child_runs", 4);
     }
-    gr_logical = 0; gr_fail_mask = 1;                /* the first source call fails */
-    memset(o2, GPAT, n);
-    s2 = ascon_random(o2, n);
-    if (s2 != 0) vf_violation("C15", "prng:status:ascon_random-failed-source", "\"status\":%d", s2);
-    if (n >= 8) { size_t k = 0; while (k < n && o2[k] == GPAT) ++k; if (k == n) vf_count("ascon_random_no_output_on_failed_source", 1); }   /* random.h says data is still returned; not a clause of C15 */
-    gr_fail_mask = 0;
+    gr_seed = tape; gr_logical = 0; gr_fail_mask = 0; gr_eintr_mask = 0; gr_pending_intr = 0; pert_call = -1;
     /* bad parameters */
     {
         ascon_random_state_t st;
@@ -413,7 +442,7 @@ static void case_misc(uint64_t idx)
         gfree(t1); gfree(t2); gfree(sb);
     }
     vf_distinct("misc|n%zu", n);
-    gfree(o1); gfree(o2);
+
 }
 
 int main(int argc, char **argv)
